@@ -20,4 +20,74 @@ PROPS = {
             "the sharded persister's map[uint32]Persister lookup is Go map semantics",
         ],
     },
+    "C01": {
+        "theorems": [],
+        "modules": ["SV.Props.C01"],
+        "runs": [{"component": "txcache", "thorough_seeds": 3}],
+        "rule": "random add/rm/clear/sel histories over a small transaction alphabet (hash determines content) under boundary-biased configurations; distinct = distinct (operation kind, canonical output incl. full API dump) pairs observed on the implementation",
+        "assumptions": [
+            "Go container/heap, container/list and Go maps are modelled (extract-best over a list, lists, association lists); fees/values/balances are non-negative big integers; hash determines content",
+            "the selection time budget is modelled by an arbitrary stop oracle consulted where the code reads the clock",
+        ],
+    },
+    "C02": {
+        "theorems": [],
+        "modules": ["SV.Props.C02"],
+        "runs": [{"component": "txcache", "thorough_seeds": 3}],
+        "rule": "random add/rm/clear/sel histories over a small transaction alphabet (hash determines content) under boundary-biased configurations; distinct = distinct (operation kind, canonical output incl. full API dump) pairs observed on the implementation",
+        "assumptions": [
+            "Go container/heap, container/list and Go maps are modelled (extract-best over a list, lists, association lists); fees/values/balances are non-negative big integers; hash determines content",
+            "the selection time budget is modelled by an arbitrary stop oracle consulted where the code reads the clock",
+        ],
+    },
+    "C03": {
+        "theorems": [],
+        "modules": ["SV.Props.C03"],
+        "runs": [{"component": "txcache", "thorough_seeds": 3}],
+        "rule": "random add/rm/clear/sel histories over a small transaction alphabet (hash determines content) under boundary-biased configurations; distinct = distinct (operation kind, canonical output incl. full API dump) pairs observed on the implementation",
+        "assumptions": [
+            "Go container/heap, container/list and Go maps are modelled (extract-best over a list, lists, association lists); fees/values/balances are non-negative big integers; hash determines content",
+            "the selection time budget is modelled by an arbitrary stop oracle consulted where the code reads the clock",
+        ],
+    },
+    "C04": {
+        "theorems": [],
+        "modules": ["SV.Props.C04"],
+        "runs": [{"component": "txcache", "thorough_seeds": 3}],
+        "rule": "random add/rm/clear/sel histories over a small transaction alphabet (hash determines content) under boundary-biased configurations; distinct = distinct (operation kind, canonical output incl. full API dump) pairs observed on the implementation",
+        "assumptions": [
+            "Go container/heap, container/list and Go maps are modelled (extract-best over a list, lists, association lists); fees/values/balances are non-negative big integers; hash determines content",
+            "the selection time budget is modelled by an arbitrary stop oracle consulted where the code reads the clock",
+        ],
+    },
+    "C05": {
+        "theorems": [],
+        "modules": ["SV.Props.C05"],
+        "runs": [{"component": "txcache", "thorough_seeds": 3}],
+        "rule": "random add/rm/clear/sel histories over a small transaction alphabet (hash determines content) under boundary-biased configurations; distinct = distinct (operation kind, canonical output incl. full API dump) pairs observed on the implementation",
+        "assumptions": [
+            "Go container/heap, container/list and Go maps are modelled (extract-best over a list, lists, association lists); fees/values/balances are non-negative big integers; hash determines content",
+            "the selection time budget is modelled by an arbitrary stop oracle consulted where the code reads the clock",
+        ],
+    },
+    "C06": {
+        "theorems": [],
+        "modules": ["SV.Props.C06"],
+        "runs": [{"component": "txcache", "thorough_seeds": 3}],
+        "rule": "random add/rm/clear/sel histories over a small transaction alphabet (hash determines content) under boundary-biased configurations; distinct = distinct (operation kind, canonical output incl. full API dump) pairs observed on the implementation",
+        "assumptions": [
+            "Go container/heap, container/list and Go maps are modelled (extract-best over a list, lists, association lists); fees/values/balances are non-negative big integers; hash determines content",
+            "the selection time budget is modelled by an arbitrary stop oracle consulted where the code reads the clock",
+        ],
+    },
+    "C07": {
+        "theorems": [],
+        "modules": ["SV.Props.C07"],
+        "runs": [{"component": "txcache", "thorough_seeds": 3}],
+        "rule": "random add/rm/clear/sel histories over a small transaction alphabet (hash determines content) under boundary-biased configurations; distinct = distinct (operation kind, canonical output incl. full API dump) pairs observed on the implementation",
+        "assumptions": [
+            "Go container/heap, container/list and Go maps are modelled (extract-best over a list, lists, association lists); fees/values/balances are non-negative big integers; hash determines content",
+            "the selection time budget is modelled by an arbitrary stop oracle consulted where the code reads the clock",
+        ],
+    },
 }
